@@ -39,9 +39,15 @@ type login struct {
 // request id, forwarding headers, the user agent) is chosen by the client or visible to intermediaries.
 var c06Headers map[string]string
 
+// c06Path is the path-and-query of the login-triggering request ("" = /app): whoever builds the link chooses it.
+var c06Path string
+
 func c06Login(w *sim.World, cookie ...string) login {
 	var l login
 	req := sim.Req{Scheme: "https", Host: w.AppHost, Path: "/app"}
+	if c06Path != "" {
+		req.Path = c06Path
+	}
 	if len(c06Headers) > 0 {
 		req.Headers = map[string]string{}
 		for k, v := range c06Headers {
@@ -257,6 +263,14 @@ func c06Derivations(c *sim.Case) {
 	n := 3 + sim.Pick(c, "logins", 6)
 	var ls []login
 	carried := 0
+	if sim.Bool(c, "chosen-link") {
+		// the link that starts the login carries parameters named like the protocol's own, with values its author chose:
+		// nothing in the login redirect may take its state, nonce or challenge from them
+		c06Path = "/app?state=ZqCHOSENstate0000000000000000000&nonce=ZqCHOSENnonce0000000000000000000&code_challenge=ZqCHOSENchallenge&idp_nonce=ZqCHOSENidpnonce&idp_state=ZqCHOSENidpstate" +
+			"&login_nonce=ZqCHOSENloginnonce&oidc_nonce=ZqCHOSENoidcnonce&x-nonce=ZqCHOSENxnonce&session=ZqCHOSENsession&sid=ZqCHOSENsid&request_id=ZqCHOSENrid"
+		defer func() { c06Path = "" }()
+		c.Class("derivations:link-with-chosen-parameters")
+	}
 	if sim.Bool(c, "same-request-attributes") {
 		// every login request of this case looks the same from outside: a replayed x-request-id, one client address
 		c06Headers = map[string]string{"x-request-id": "7f1c0f3e-5b1a-4c55-9d57-0e6f1d2a9b11", "x-forwarded-for": "203.0.113.7", "user-agent": "Mozilla/5.0", "x-b3-traceid": "80f198ee56343ba864fe8b2a57d3eff7"}
@@ -272,6 +286,11 @@ func c06Derivations(c *sim.Case) {
 		ls = append(ls, c06Login(w, prev))
 	}
 	for i, l := range ls {
+		for kind, v := range map[string]string{"session-id": l.id, "state": l.state, "nonce": l.nonce, "challenge": l.challenge} {
+			if strings.Contains(v, "ZqCHOSEN") {
+				c.Violation("chosen-by-the-link:"+kind, "login %d: the %s in the login redirect (%q) was taken from the query of the request that started the login", i, kind, short(v, 40))
+			}
+		}
 		for j := 0; j < len(ls); j++ {
 			if j < 0 || j >= len(ls) {
 				continue
